@@ -449,7 +449,7 @@ func memSystem(rng *rand.Rand) SysCfg {
 			for a := range cc.Script {
 				for n := rng.Intn(3); n > 0; n-- {
 					op := []string{"read", "write"}[rng.Intn(2)]
-					cc.Script[a] = append(cc.Script[a], Action{Op: op, Port: pc.Name, Dst: memPort, Addr: 4 * rng.Intn(200)})
+					cc.Script[a] = append(cc.Script[a], Action{Op: op, Port: pc.Name, Dst: memPort, Addr: 4 * rng.Intn(60)})
 				}
 			}
 			if len(cc.Script) == 0 {
